@@ -31,7 +31,7 @@ PT_TOL = 1e-9
 
 def floors(tier):
     return {"judged": 3000, "partition_none_free": 50, "partition_some_free": 1000, "partition_all_free": 300,
-            "binding_truncation": 300, "intercepted_calls": 300, "inputs_with_idle_free_variables": 300, "inputs_in_tiny_length_units_with_memory": 150, "restarted_runs": 20, "restarted_runs_with_gradient_scaler": 8, "restarted_runs_from_a_checkpoint_whose_iteration_counter_was_reset": 6, "runs_with_single_precision_gradient": 10, "inputs_with_single_precision_gradient_array": 300, "runs_with_callback_editing_the_state_pairs": 20, "runs_with_optimisation_nested_in_the_callback": 20, "descent_checked": 2000, "__nontrivial__": 250}
+            "binding_truncation": 300, "intercepted_calls": 300, "inputs_with_idle_free_variables": 300, "inputs_in_tiny_length_units_with_memory": 150, "restarted_runs": 20, "restarted_runs_with_gradient_scaler": 8, "restarted_runs_from_a_checkpoint_whose_iteration_counter_was_reset": 6, "runs_with_single_precision_gradient": 10, "inputs_with_single_precision_gradient_array": 300, "inputs_with_a_tiny_step_component_limiting_the_truncation": 150, "runs_with_callback_editing_the_state_pairs": 20, "runs_with_optimisation_nested_in_the_callback": 20, "descent_checked": 2000, "__nontrivial__": 250}
 
 
 def judge_subspace(out, x, xc, g, lb, ub, B, xbar, where, tags, mats=None, c=None):
@@ -160,6 +160,49 @@ def synthetic_input(out, keys, x, g, lb, ub, mats, B, where, tags):
             keys.add(digest(x, g, lb, ub, B))
 
 
+def hair_input(out, keys, rng, n, mats, B, idle, where, tags):
+    """Mixed scales in the step: a free variable the memory does not couple to the others (zero rows in S, Y) sits a few units in the
+    last place inside a small bound and its exact Newton component - tiny next to the steps of the other variables - points at that
+    bound and is `c` times the gap: the truncation factor is 1/c, whatever the size of the other components. The routine is given an
+    arbitrary feasible Cauchy point with its auxiliary vector (the statement starts from "given the Cauchy point")."""
+    i = int(idle[0])
+    lb, ub = gen.rand_box(rng, n, gen.pick(rng, ["none", "mixed", "boxed", "lower", "upper"]))
+    x = gen.rand_x0(rng, lb, ub, "interior")
+    xc = np.clip(x + 0.3 * rng.standard_normal(n), lb, ub)
+    for j in range(n):
+        if j != i and rng.random() < 0.25 and np.isfinite(lb[j]):
+            xc[j] = lb[j]
+    b = float(np.exp(rng.uniform(np.log(1e-6), np.log(1e-2)))) * float(rng.choice([-1.0, 1.0]))
+    up = bool(rng.random() < 0.5)
+    k = int(rng.integers(1, 6))
+    inside = b
+    for _ in range(k):
+        inside = np.nextafter(inside, -np.inf if up else np.inf)
+    lb[i], ub[i] = (b - 1.0, b) if up else (b, b + 1.0)
+    x[i] = xc[i] = inside
+    gap = abs(b - inside)
+    c = float(rng.uniform(2.0, 12.0))
+    theta = float(mats.theta)
+    free = np.nonzero((xc != lb) & (xc != ub))[0]
+    # choose the model gradient at xc on the free variables through the step wanted there: O(1) on the others, c*gap towards the bound on i
+    dhat = rng.standard_normal(free.size) * np.exp(rng.uniform(-1, 1))
+    r = np.zeros(n)
+    r[free] = -B[np.ix_(free, free)] @ dhat
+    g = r - B @ (xc - x)
+    g[i] = -theta * (c * gap) * (1.0 if up else -1.0)  # row i of B is theta e_i: dhat_i = -g_i / theta exactly (xc_i == x_i)
+    cvec = mats.W.T @ (xc - x) if has_pairs(mats) else np.zeros(mats.W.shape[1])
+    try:
+        xbar = call_subspace(x, xc, cvec, g, lb, ub, mats)
+    except Exception as e:
+        out.violate("subspace_raised", f"{where}: {e!r}", **tags)
+        return
+    out.count("inputs_with_a_tiny_step_component_limiting_the_truncation")
+    ref = judge_subspace(out, x, xc, g, lb, ub, B, xbar, where, tags, mats=mats, c=cvec)
+    if ref is not None and ref["alpha"] < 1.0:
+        out.count("inputs_whose_truncation_is_set_by_a_component_below_eps_times_the_largest")
+        keys.add(digest(x, g, lb, ub, B))
+
+
 def cases(tier, seed):
     import itertools
 
@@ -250,6 +293,11 @@ def run(spec):
                     out.count("skipped_memory_inconsistent")
                     continue
                 mats, B = mm
+                if idle is not None and xunit == 1.0 and j % 8 == 1 and n <= 12:
+                    hair_input(out, keys, rng, n, mats, B, idle, f"hair n={n} pairs={npairs}", dict(source="hair"))
+                    if out.violations:
+                        break
+                    continue
                 lb, ub = gen.rand_box(rng, n, gen.pick(rng, ["mixed", "boxed", "narrow", "lower", "upper", "none", "boxed_degenerate"]))
                 x = gen.rand_x0(rng, lb, ub, gen.pick(rng, ["interior", "face", "vertex"]))
                 g = rng.standard_normal(n) * np.exp(rng.uniform(-2, 3))
